@@ -77,6 +77,18 @@ CHECKS["C10"] = (
     "DESIGN.md section 3, C10",
 )
 
+CHECKS["C06"] = (
+    "ENUM",
+    "model_checking",
+    "bounded exhaustive enumeration of open prefixes x formulas, each definite verdict checked against ALL closed completions under the reference semantics",
+    "For four grammars, every distinct open prefix of every closed tree of the universe (one or two - thorough: three - inner nodes opened, "
+    "and 'everything below depth d' opened) is evaluated with every formula of a schema-stratified set. Whenever evaluate() answers TRUE or "
+    "FALSE, every completion obtained by substituting every closed subtree of a bounded pool for each open leaf is judged by the reference "
+    "semantics; a single disagreeing completion is a violation. UNKNOWN is always accepted; a run in which fewer than 5% of verdicts are definite fails as vacuous.",
+    "Completions come from bounded pools (stated in the evidence), so 'all completions' means all within the pools; reference semantics as for C03.",
+    "DESIGN.md section 3, C06",
+)
+
 NOT_YET = "check not built yet in this round (planned in DESIGN.md section 3)"
 
 
